@@ -154,7 +154,14 @@ func genBadTSConfig(k *kernel.K) *tsConfig {
 	good := genTSConfig(k, 0)
 	c := &tsConfig{Latency: good.Latency, DefaultBW: good.DefaultBW, Shapes: good.Shapes}
 	s := c.Shapes[0]
-	switch w.Draw(7) {
+	switch w.Draw(8) {
+	case 7:
+		c.invalid = "negative_count"
+		if w.Chance(1, 2) {
+			s.Halts = []*tsHalt{{Byte: 10, Duration: 10, Count: -5}}
+		} else {
+			s.Closes = []*tsClose{{Byte: 10, Count: -2}}
+		}
 	case 0:
 		c.invalid = "overlapping_throttles"
 		s.Throttles = []*tsThrottle{{Bytes: "0-2000", Bandwidth: 1000}, {Bytes: "1000-3000", Bandwidth: 1000}}
